@@ -19,11 +19,15 @@ EXPLANATION = (
     "only where the order facts give day_submerged <= LagAer (strict guard before the integer increment), so it is >= 0. C04.e: the net-irrigation refill raises (or lowers) each compartment towards the threshold of its own layer - "
     "the per-layer threshold is recomputed from the compartment's own wilting point / field capacity at every layer change and the "
     "root-zone-average threshold computed before the loop cannot reach the refill (reaching definitions + the layer-change idiom) - "
-    "the structural half of the non-negativity of the net requirement. C04.f: every definition of the curve number reaching the retention formula S = 25400/cn - 254 is clamped to constants 0 < lo <= cn <= up <= 100, so S >= 0 is finite and 0 <= runoff <= rain. C04.g (structural half of Es <= EsPot): soil_evaporation's demand ledger - remaining demand + actual evaporation is invariant from its definition to the return (linear template), and every stage potential is defined as min(remaining demand, .) or as a per-sub-step fraction of it. C04.h (structural half of Tr <= TrPot): the root-extraction loop's ledger - remaining demand + actual transpiration invariant through the loop (induction), and the per-compartment sink taken off the ledger has passed the cap against the remaining demand expressed as a water content of the same compartment (later definitions only lower it). C04.i (structural half of DeepPerc >= 0): every comparison in drainage that involves a field capacity uses the adjusted field capacity of the day; the plain value appears in arithmetic only. C04.j = C03.h (the two evaporation extraction loops agree; without the clamp of negative available water the actual evaporation goes negative). C04.k: extraction amounts (added to the evaporation total and taken off the compartment's water) are non-negative on every path into the block. C04.l: the three logistic stress curves (cold stress on transpiration, heat / cold stress on pollination) are evaluated only after their argument was compared with both ends of its interval. NOT decided: the numeric inequalities themselves, non-negativity of DeepPerc / CR / GwIn / Runoff / Es "
+    "the structural half of the non-negativity of the net requirement. C04.f: every definition of the curve number reaching the retention formula S = 25400/cn - 254 is clamped to constants 0 < lo <= cn <= up <= 100, so S >= 0 is finite and 0 <= runoff <= rain. C04.g (structural half of Es <= EsPot): soil_evaporation's demand ledger - remaining demand + actual evaporation is invariant from its definition to the return (linear template), and every stage potential is defined as min(remaining demand, .) or as a per-sub-step fraction of it. C04.h (structural half of Tr <= TrPot): the root-extraction loop's ledger - remaining demand + actual transpiration invariant through the loop (induction), and the per-compartment sink taken off the ledger has passed the cap against the remaining demand expressed as a water content of the same compartment (later definitions only lower it). C04.i (structural half of DeepPerc >= 0): every comparison in drainage that involves a field capacity uses the adjusted field capacity of the day; the plain value appears in arithmetic only. C04.j = C03.h (the two evaporation extraction loops agree; without the clamp of negative available water the actual evaporation goes negative). C04.k: extraction amounts (added to the evaporation total and taken off the compartment's water) are non-negative on every path into the block. C04.l: the three logistic stress curves (cold stress on transpiration, heat / cold stress on pollination) are evaluated only after their argument was compared with both ends of its interval. C04.m (= T-TIME): no mixture of calendar days and growing degree days (the canopy-ageing counter that lowers the crop coefficient by a per-day rate counts days, never degree days). NOT decided: the numeric inequalities themselves, non-negativity of DeepPerc / CR / GwIn / Runoff / Es "
     "(numeric, depend on run-time water contents).")
 
 
 def run(chk, prog, tier):
+    from ._timeunits import time_units
+    from ..common import STEP_FN as _STEP, RESET_FN as _RESET
+    chk.floor("C04.m", time_units(chk, prog, "C04.m", set(prog.reachable_from(_STEP)) | set(prog.reachable_from(_RESET)) | {_STEP}), 120,
+              "expressions and stores carrying a time unit below the daily step and the season reset")
     # ---------------------------------------------------------------- C04.a / C04.b (one batch, parallel)
     configs = [{}] + [{"IrrMngt.irrigation_method": m} for m in range(6)]
     irr_name = step_local(prog, "irr")
